@@ -15,7 +15,7 @@ def plan(ctx):
     obs = []
     thorough = ctx.tier == "thorough"
     # ---- L2: public API, real back ends
-    l2_shapes = [(RS, 1, 1, 1), (RS, 2, 1, 1), (RS, 2, 2, 2), (ISAV, 2, 1, 1), (ISAC, 2, 1, 1)] + ([(RS, 1, 2, 2), (RS, 3, 1, 1), (RS, 3, 2, 2), (ISAV, 2, 2, 2), (ISAV, 3, 2, 2)] if thorough else [])
+    l2_shapes = [(RS, 2, 1, 1), (RS, 2, 2, 2), (ISAV, 2, 1, 1), (ISAC, 2, 1, 1)] + ([(RS, 3, 1, 1), (RS, 3, 2, 2), (ISAV, 2, 2, 2), (ISAV, 3, 2, 2)] if thorough else [])
     for be, k, m, hd in l2_shapes:
         n = k + m
         unit = k * WB[be]
@@ -42,7 +42,7 @@ def plan(ctx):
             sets = [s for s in sets if len(s) == 1] + rnd.sample([s for s in sets if len(s) > 1], 24)
         elif len(sets) > 400:
             sets = [s for s in sets if len(s) == 1] + rnd.sample([s for s in sets if len(s) > 1], 200)
-        for i, ch in enumerate(chunks(sets, 8)):
+        for i, ch in enumerate(chunks(sets, 3)):
             obs.append(be_l1_ob(be, k, m, hd, ch, idx=i, timeout=1500, mem=(12 if k >= 8 else 4)))
     if not thorough:
         obs.append(be_l1_ob(RS, 10, 4, 4, [(0, 3, 11, 12), (13,), (1, 2, 3, 4)], idx=0, timeout=1500, mem=16))
